@@ -278,10 +278,15 @@ WrapProg == BaseFacts \o AliasExtra \o
      (* a head all of whose arguments are $_ (and a goal all of whose arguments are $_), after a goal that made a binding *)
      Fact(Cx("seen", <<Anon>>)), Fact(Cx("seen2", <<Anon, Anon>>)),
      Clause(Cx("wr3", <<VA, VB>>), AndG(<<Call(q1(VA)), Call(Cx("seen", <<VB>>)), Call(Cx("seen2", <<VA, c>>))>>)),
-     Clause(Cx("wr4", <<VA>>), AndG(<<Call(q1(VA)), Call(s2(Anon, Anon))>>)) >>
+     Clause(Cx("wr4", <<VA>>), AndG(<<Call(q1(VA)), Call(s2(Anon, Anon))>>)),
+     (* a fact with several variables of its own, called with unbound variables which are bound afterwards: under the    *)
+     (* renamings of C11 the fact's names and the caller's names coincide in DIFFERENT positions                          *)
+     Fact(Cx("both", <<X, Y, Cx("f", <<X, Y>>)>>)), Fact(Cx("first", <<LstT(<<V("$H")>>, V("$T")), V("$H")>>)),
+     Clause(Cx("wr5", <<VC>>), AndG(<<Call(Cx("both", <<VA, VB, VC>>)), UnifyG(VA, a), UnifyG(VB, b)>>)),
+     Clause(Cx("wr6", <<VA, VB>>), AndG(<<Call(Cx("first", <<VB, VA>>)), UnifyG(VB, Lst(<<a, b>>))>>)) >>
 ProgsAlias == PQS({BaseFacts \o AliasExtra \o <<c1_, c2_>> : c1_ \in AliasClauses, c2_ \in AliasClauses}, AliasQueries)
               \cup PQ(LateProg, {Cx("late", <<Z>>), Cx("late", <<X>>)})
-              \cup PQ(WrapProg, {Cx("wr", <<Z, W>>), Cx("wr2", <<Z, W>>), Cx("wr", <<X, Y>>), Cx("wr3", <<Z, W>>), Cx("wr4", <<Z>>)})
+              \cup PQ(WrapProg, {Cx("wr", <<Z, W>>), Cx("wr2", <<Z, W>>), Cx("wr", <<X, Y>>), Cx("wr3", <<Z, W>>), Cx("wr4", <<Z>>), Cx("wr5", <<Z>>), Cx("wr6", <<Z, W>>), Cx("wr6", <<V("$T"), V("$H")>>)})
 
 ProgQueries == CASE Slice = "andor" -> ProgsAndOr
                  [] Slice = "cut"   -> ProgsCut
